@@ -54,6 +54,7 @@ def generate(run_seed, tier):
         mcfg, fit = gen_toy(c)
         mcfg['invalid_above'] = None
         mcfg.pop('rows2d', None)      # (this check builds its own 1-D data)
+        zero_map = c.random() < 0.35
         x = np.linspace(1.0, 2.0, mcfg['ngrid'])
         y = sum(p['value'] * x**k for k, p in enumerate(mcfg['mparams']))
         err = [float(0.02 * abs(v) + 0.01) for v in y]
@@ -140,6 +141,8 @@ def generate(run_seed, tier):
            'stale_files': c.random() < 0.3,
            'leading_blank': c.random() < 0.5,
            'output_size': c.choice([1, 3, 6])}
+    if toy and zero_map and sampler != 'nestle_real':
+        cfg['zero_map'] = True
     if second:
         cfg['second_fit'] = second
         if obs_cfg is not None and c.random() < 0.5:
@@ -169,6 +172,17 @@ def _post_from_cfg(cfg, fit_by_name, order, key='modes'):
         m2 = list(map(float, md['m2logl']))
         jmax = max(range(len(w)), key=lambda j: w[j])
         jml = min(range(len(m2)), key=lambda j: m2[j])
+        if cfg.get('zero_map'):
+            # the best sample has a coordinate that is exactly 0.0 in the
+            # space of its prior (log10 x = 0 for x = 1)
+            jz = jml if cfg['sampler'] == 'polychord' else jmax
+            for i, n_ in enumerate(order):
+                sp = fit_by_name[n_]['prior']
+                if sp['kind'] in ('LogUniform', 'LogGaussian'):
+                    b = M.ref_prior_bounds(sp)
+                    if b[0] < 0.0 < b[1]:
+                        s[jz][i] = 0.0
+                        break
         modes.append({'samples': s, 'weights': w, 'm2logl': m2,
                       'map': s[jmax], 'ml': s[jml]})
     return modes
@@ -453,9 +467,16 @@ def execute(case, keep_text=False, after_fit=None):
                     q16, q50, q84 = ref_quantiles(col, W_.tolist(),
                                                   [0.16, 0.5, 0.84])
                     scale = max(abs(q50), abs(q84 - q16), 1e-300)
+                    tied_x = len(set(col)) < len(col)
+                    if tied_x:
+                        # equal sample values (a real sampler may return
+                        # them): the quantile rule then depends on the order
+                        # of the tied rows
+                        out.bump('probes', 'tied_sample_values')
                     for nm, want in (('value', q50), ('sigma_m', q50 - q16),
                                      ('sigma_p', q84 - q50)):
-                        if abs(float(ent[nm]) - want) > 1e-9 * scale:
+                        if not tied_x and \
+                                abs(float(ent[nm]) - want) > 1e-9 * scale:
                             viol('quantile', nm, '%s: %r, weighted quantile rule '
                                  'gives %r' % (fn, float(ent[nm]), want))
                     med_vec.append(q50)
